@@ -3,9 +3,12 @@
 # For every stored seeded change (/verif/seeded/<id>/patch.diff): apply it to /repo, run the checks of the properties
 # listed in seeded/<id>/checks (default: the property in the id), record what they report in seeded/<id>/result.json,
 # and undo the change (git -C /repo checkout -- .).  /repo must be clean when this starts.
+# With SEED_REPO=<scratch worktree of /repo> the changes are applied there and the checks run against it
+# (VERIF_REPO=$SEED_REPO): /repo itself is then not touched.
 set -u
 cd /verif
-if [ -n "$(git -C /repo status --porcelain -- src)" ]; then echo "/repo has local changes: refusing"; exit 2; fi
+R=${SEED_REPO:-/repo}
+if [ -n "$(git -C $R status --porcelain -- src)" ]; then echo "$R has local changes: refusing"; exit 2; fi
 IDS="$*"
 [ -z "$IDS" ] && IDS=$(ls seeded)
 for ID in $IDS; do
@@ -13,11 +16,11 @@ for ID in $IDS; do
   [ -f "$D/patch.diff" ] || continue
   [ "$ID" = "harmless" ] && continue
   PROPS=$(cat "$D/checks" 2>/dev/null || echo "$ID" | cut -c1-3)
-  git -C /repo apply "/verif/$D/patch.diff" || { echo "$ID: patch does not apply"; continue; }
+  git -C $R apply "/verif/$D/patch.diff" || { echo "$ID: patch does not apply"; continue; }
   OUT="{\"seed\": \"$ID\", \"results\": ["
   SEP=""
   for P in $PROPS; do
-    LOG=$(./check "$P" 2>&1); CODE=$?
+    LOG=$(VERIF_REPO=$R ./check "$P" 2>&1); CODE=$?
     OBL=$(echo "$LOG" | grep "failed obligation" | sed 's/.*failed obligation \([^ ]*\).*/\1/' | sort -u | head -6 | tr '\n' ' ')
     VIO=$(echo "$LOG" | grep -c "^VIOLATION")
     REP=$(echo "$LOG" | grep "^VIOLATION" | sed 's/.*replay=\([^ ]*\).*/\1/' | xargs -n1 basename 2>/dev/null | sort -u | head -6 | tr '\n' ' ')
@@ -27,5 +30,5 @@ for ID in $IDS; do
     echo "$ID $P exit=$CODE violations=$VIO obligations: $OBL replays: $REP"
   done
   echo "$OUT]}" > "$D/result.json"
-  git -C /repo checkout -- .
+  git -C $R checkout -- .
 done
